@@ -14,3 +14,5 @@ import QV.Props.C02
 import QV.Props.C03
 import QV.Props.C06
 import QV.Props.C11
+import QV.Model.Opt
+import QV.Props.C04
